@@ -425,6 +425,23 @@ def rule_remove(ctx, ci):
             ok = got == want
         ctx.check(ok, R, "remove_note[B##,%s of octaves -1 and 3]" % (qo,), fi.where(), "remove_note('B##'%s) on B##--1, C-0, B##-3" % ("" if qo is None else ", %d" % qo),
                   "leaves %s, the set model predicts %s" % (got, want))
+    # octave 0 is an octave too (not "no octave given")
+    zero = [("C", 0), ("E", 0), ("C", 4)]
+    for fn_name, operand, extra, want in (("remove_note", "C", [0], zero[1:]), ("remove_note", "C-0", [], zero[1:]), ("remove_notes", ["C-0"], [], zero[1:]),
+                                          ("__sub__", "E-0", [], [zero[0], zero[2]]), ("remove_note", "C", [4], zero[:2])):
+        fx = repo.find_method(ci, fn_name)
+        try:
+            paths = run_method(repo, fx, lambda operand=operand, extra=extra: [AObj(ci, {"notes": [AObj(noteci, {"name": n, "octave": o, "velocity": 64, "channel": 1}, name="%s%d" % (n, o)) for n, o in zero]}, name="c"),
+                                                                               list(operand) if isinstance(operand, list) else operand] + list(extra))
+        except CannotDecide as e:
+            raise AnalysisError("%s(%r): %s" % (fn_name, operand, e))
+        ok = len(paths) == 1 and paths[0].kind == "return"
+        got = [(p.kind, short(repr(p.value), 60)) for p in paths]
+        if ok:
+            got = [(x.attrs["name"], x.attrs["octave"]) for x in paths[0].interp.args[0].attrs["notes"]]
+            ok = got == want
+        ctx.check(ok, R, "%s[%r%s in octave 0]" % (fn_name, operand, "".join(", %d" % e for e in extra)), fx.where(), "%s(%r%s) on C-0, E-0, C-4" % (fn_name, operand, "".join(", %d" % e for e in extra)),
+                  "leaves %s, the set model predicts %s" % (got, want))
     fd = repo.find_method(ci, "remove_duplicate_notes")
 
     def mk3():
